@@ -391,7 +391,8 @@ def run_case(case, ctx):
     val = val.reshape(()) if val.numel() == 1 else val
     ref = eval_dense(case['expr'], E)
     # value agreement first (a wrong value makes the gradient comparison meaningless)
-    if abs(float(val.detach()) - float(ref.detach())) > 1e-9 * (1 + abs(float(ref.detach()))):
+    # 1e-6 relative (+1e-6 absolute): sqrt-type nodes amplify roundoff near zero (norm of an exactly cancelling tensor is ~1e-8, not 0)
+    if abs(float(val.detach()) - float(ref.detach())) > 1e-6 * (1 + abs(float(ref.detach()))):
         ctx.viol('expr/%s/clause=value' % _top(case['expr']), '%s: TT value %r, dense value %r' % (what, float(val.detach()), float(ref.detach())))
         return
     names = [k for k in 'abcA' if k in tracked]
@@ -437,6 +438,9 @@ def run_case(case, ctx):
     # reference gradients + finite-difference cross-check of the reference
     rparams = [leaf[nme][i] for (nme, i) in wanted]
     rgrads = torch.autograd.grad(ref, rparams, allow_unused=True)
+    if any(gr is not None and not bool(torch.isfinite(gr).all()) for gr in rgrads):
+        ctx.count('reference_not_differentiable_here(skipped)')      # e.g. the norm of an exactly zero tensor
+        return
     direction = [gens.values(list(p.shape), dt, 'gauss', g) for p in rparams]
     dd = sum(float((gr * di).sum()) for gr, di in zip(rgrads, direction) if gr is not None)
     h = 1e-6
